@@ -153,4 +153,147 @@ theorem good_cellE {pb : Problem} (hwf : WellFormed pb) {y x : Nat} (hy : y < pb
         simp only [List.mem_singleton] at hc; subst hc
         exact good_orE _ (good_cands hy hx (by omega))
 
+/-! ### generic evaluation facts -/
+
+theorem eval_and_iff (σ : Asg) (l : List Expr) (hl : ∀ e ∈ l, wtB e = true) :
+    eval σ (.node .and l) = some (.b true) ↔ ∀ e ∈ l, eval σ e = some (.b true) := by
+  have hmap : l.map (eval σ)
+      = (l.map fun e => decide (eval σ e = some (.b true))).map fun b => some (.b b) := by
+    rw [List.map_map]
+    apply List.map_congr_left
+    intro e he
+    obtain ⟨b, hb⟩ := wtB_eval σ e (hl e he)
+    cases b <;> simp [hb]
+  rw [eval_node, hmap, evalOp_and]
+  simp [List.all_eq_true]
+
+theorem eval_or_iff (σ : Asg) (l : List Expr) (hl : ∀ e ∈ l, wtB e = true) :
+    eval σ (.node .or l) = some (.b true) ↔ ∃ e ∈ l, eval σ e = some (.b true) := by
+  have hmap : l.map (eval σ)
+      = (l.map fun e => decide (eval σ e = some (.b true))).map fun b => some (.b b) := by
+    rw [List.map_map]
+    apply List.map_congr_left
+    intro e he
+    obtain ⟨b, hb⟩ := wtB_eval σ e (hl e he)
+    cases b <;> simp [hb]
+  rw [eval_node, hmap, evalOp_or]
+  simp [List.any_eq_true]
+
+theorem eval_andE_iff (σ : Asg) (l : List Expr) (hl : ∀ e ∈ l, wtB e = true) :
+    eval σ (andE l) = some (.b true) ↔ ∀ e ∈ l, eval σ e = some (.b true) := by
+  unfold andE
+  split
+  · next h =>
+    have : l = [] := by simpa using h
+    subst this
+    simp [evalOp]
+  · exact eval_and_iff σ l hl
+
+theorem eval_orE_iff (σ : Asg) (l : List Expr) (hl : ∀ e ∈ l, wtB e = true) :
+    eval σ (orE l) = some (.b true) ↔ ∃ e ∈ l, eval σ e = some (.b true) := by
+  unfold orE
+  split
+  · next h =>
+    have : l = [] := by simpa using h
+    subst this
+    simp [evalOp]
+  · exact eval_or_iff σ l hl
+
+theorem eval_or2 {σ : Asg} {a b : Expr} {x y : Bool}
+    (ha : eval σ a = some (.b x)) (hb : eval σ b = some (.b y)) :
+    eval σ (.node .or [a, b]) = some (.b (x || y)) := by
+  simp [ha, hb, evalOp, allBools]
+
+theorem dirCands_sem (σ : Asg) (edge inside : Prop) [Decidable edge] [Decidable inside] (run : List Expr) (s : Nat)
+    (hrun : ∀ e ∈ run, wtB e = true) :
+    (∃ c ∈ dirCands edge inside run (.bvar s), eval σ c = some (.b true)) ↔
+      (edge ∨ inside) ∧ (∀ e ∈ run, eval σ e = some (.b true)) ∧ (¬ edge → σ.b s = false) := by
+  unfold dirCands
+  by_cases he : edge
+  · simp [he, eval_andE_iff σ run hrun]
+  · by_cases hi : inside
+    · have hw : ∀ e ∈ run ++ [Expr.node .not [Expr.bvar s]], wtB e = true := by
+        intro e he'
+        rcases List.mem_append.1 he' with h | h
+        · exact hrun e h
+        · simp only [List.mem_singleton] at h; subst h; rfl
+      simp only [he, hi, if_true, if_false, List.mem_singleton, exists_eq_left, eval_andE_iff σ _ hw,
+        or_true, true_and, not_false_eq_true, forall_const]
+      constructor
+      · intro h
+        refine ⟨fun e he' => h e (List.mem_append.2 (Or.inl he')), ?_⟩
+        have := h _ (List.mem_append.2 (Or.inr (List.mem_singleton.2 rfl)))
+        rw [eval_not (eval_bvar σ s)] at this
+        simpa using this
+      · rintro ⟨h1, h2⟩ e he'
+        rcases List.mem_append.1 he' with h | h
+        · exact h1 e h
+        · simp only [List.mem_singleton] at h; subst h
+          rw [eval_not (eval_bvar σ s), h2]; rfl
+    · simp [he, hi]
+
+/-! ### meaning of the constraints on a grid -/
+
+section sem
+variable {pb : Problem} (σ : Asg) (g : Nat → Nat → Bool)
+  (hg : ∀ y, y < pb.height → ∀ x, x < pb.width → g y x = σ.b (y * pb.width + x))
+include hg
+
+theorem eval_cv {y x : Nat} (hy : y < pb.height) (hx : x < pb.width) :
+    eval σ (cv pb.width y x) = some (.b (g y x)) := by
+  rw [cv, eval_bvar, hg y hy x hx]
+
+theorem blocks_sem {y x : Nat} (hy : y + 1 < pb.height) (hx : x + 1 < pb.width) :
+    (eval σ (orBlock pb.width y x) = some (.b true) ∧ eval σ (nandBlock pb.width y x) = some (.b true)) ↔
+      (¬ (g y x = true ∧ g (y + 1) x = true ∧ g y (x + 1) = true ∧ g (y + 1) (x + 1) = true) ∧
+       ¬ (g y x = false ∧ g (y + 1) x = false ∧ g y (x + 1) = false ∧ g (y + 1) (x + 1) = false)) := by
+  have c00 := eval_cv σ g hg (y := y) (x := x) (by omega) (by omega)
+  have c10 := eval_cv σ g hg (y := y + 1) (x := x) hy (by omega)
+  have c01 := eval_cv σ g hg (y := y) (x := x + 1) (by omega) hx
+  have c11 := eval_cv σ g hg (y := y + 1) (x := x + 1) hy hx
+  have e1 := eval_or2 (eval_or2 (eval_or2 c00 c10) c01) c11
+  have e2 := eval_not (eval_and2 (eval_and2 (eval_and2 c00 c10) c01) c11)
+  rw [orBlock, nandBlock, e1, e2]
+  cases g y x <;> cases g (y + 1) x <;> cases g y (x + 1) <;> cases g (y + 1) (x + 1) <;> simp
+
+theorem nb_count {y x : Nat} (hy : y < pb.height) (hx : x < pb.width) :
+    ((neighbours pb.height pb.width (y : Int) (x : Int)).filter
+      fun p => σ.b (p.1.toNat * pb.width + p.2.toNat)).length = whiteNbrs pb g y x := by
+  have hnb : ((neighbours pb.height pb.width (y : Int) (x : Int)).filter
+        fun p => σ.b (p.1.toNat * pb.width + p.2.toNat))
+      = (neighbours pb.height pb.width (y : Int) (x : Int)).filter fun p => g p.1.toNat p.2.toNat := by
+    apply List.filter_congr
+    intro p hp
+    obtain ⟨h1, h2, h3, h4⟩ := C12Conv.mem_neighbours hp
+    rw [hg _ (by omega) _ (by omega)]
+  rw [hnb]
+  have c1 : decide (0 ≤ (y : Int) - 1 ∧ (y : Int) - 1 < (pb.height : Int) ∧ 0 ≤ (x : Int) ∧ (x : Int) < (pb.width : Int))
+      = decide (0 < y) := decide_eq_decide.2 (by omega)
+  have c2 : decide (0 ≤ (y : Int) + 1 ∧ (y : Int) + 1 < (pb.height : Int) ∧ 0 ≤ (x : Int) ∧ (x : Int) < (pb.width : Int))
+      = decide (y + 1 < pb.height) := decide_eq_decide.2 (by omega)
+  have c3 : decide (0 ≤ (y : Int) ∧ (y : Int) < (pb.height : Int) ∧ 0 ≤ (x : Int) - 1 ∧ (x : Int) - 1 < (pb.width : Int))
+      = decide (0 < x) := decide_eq_decide.2 (by omega)
+  have c4 : decide (0 ≤ (y : Int) ∧ (y : Int) < (pb.height : Int) ∧ 0 ≤ (x : Int) + 1 ∧ (x : Int) + 1 < (pb.width : Int))
+      = decide (x + 1 < pb.width) := decide_eq_decide.2 (by omega)
+  have t1 : ((y : Int) - 1).toNat = y - 1 := by omega
+  have t2 : ((y : Int) + 1).toNat = y + 1 := by omega
+  have t3 : ((x : Int) - 1).toNat = x - 1 := by omega
+  have t4 : ((x : Int) + 1).toNat = x + 1 := by omega
+  unfold neighbours whiteNbrs
+  simp only [List.filter_cons, List.filter_nil, c1, c2, c3, c4]
+  by_cases h1 : 0 < y <;> by_cases h2 : y + 1 < pb.height <;> by_cases h3 : 0 < x <;>
+    by_cases h4 : x + 1 < pb.width <;>
+    simp only [h1, h2, h3, h4, decide_true, decide_false, if_true, if_false, Bool.false_eq_true,
+      List.filter_cons, List.filter_nil, t1, t2, t3, t4, Int.toNat_natCast, true_and, false_and] <;>
+    cases g (y - 1) x <;> cases g (y + 1) x <;> cases g y (x - 1) <;> cases g y (x + 1) <;> rfl
+
+theorem eval_count {y x : Nat} (hy : y < pb.height) (hx : x < pb.width) :
+    eval σ (countTrueE (nbE pb.height pb.width y x)) = some (.i (whiteNbrs pb g y x : Nat)) := by
+  unfold nbE
+  rw [C11Norinori.eval_count_bvars σ (neighbours pb.height pb.width (y : Int) (x : Int))
+    (fun p : Int × Int => p.1.toNat * pb.width + p.2.toNat), nb_count σ g hg hy hx]
+
+end sem
+
 end Cspuz.Proofs.C11NurimisakiB
+
